@@ -15,11 +15,17 @@ KINDS = ["unit_sum", "skewed", "tie_heavy", "zeros", "integer", "one_rich", "nea
 @guard
 def impl_batch(case):
     out = []
+    cache = {}      # rule objects are reused across elections of different sizes, as a caller would
     for it in case["items"]:
         try:
             res = {}
             for rule in it["rules"]:
-                res[rule] = E.run_rule(rule, it["P"], it["vals"], it["k"])
+                res[rule] = E.run_rule(rule, it["P"], it["vals"], it["k"], cache=cache, integer=(it["kind"] == "integer"))
+            if "dtsf" in it:
+                from harness import c17
+                d = it["dtsf"]
+                r = c17.impl_one.__wrapped__(d) if hasattr(c17.impl_one, "__wrapped__") else c17.impl_one(d)
+                res["dtsf"] = {"S1": r.get("S1"), "S2": r.get("S2"), "exc": r.get("exc")}
             out.append(res)
         except Exception as e:  # noqa
             out.append({"exc": type(e).__name__, "msg": str(e)[:200]})
@@ -138,12 +144,70 @@ def run_items(R, items):
                     p = order.index(int(a)) if a != "x" else 0
                     lines.append(" ".join(["m2q", fr(Fraction(E.EPS)), str(m)] + [fr(v) for v in tv] + [str(p)]))
                 where.append((idx, rule, i))
+    from harness import c17
+    for idx, (it, res) in enumerate(zip(items, flat)):
+        if "dtsf" in it and "dtsf" in res and res["dtsf"].get("S1") is not None:
+            d = it["dtsf"]
+            for side, P_, V_, lam in (("d1", d["P1"], d["V1"], d["lam1"]), ("d2", d["P2"], d["V2"], d["lam2"])):
+                for i, l in enumerate(c17.sim2_lines(P_, V_, lam)):
+                    lines.append(l); where.append((idx, side, i))
     ans = lean_query(lines)
     per = {}
     for (idx, rule, i), a in zip(where, ans):
         per.setdefault(idx, {})[(rule, i)] = a
     for idx, (it, res) in enumerate(zip(items, flat)):
         judge(R, it, res, per.get(idx, {}))
+        judge_dtsf(R, it, res, per.get(idx, {}))
+
+
+@safe_judge
+def judge_dtsf(R, it, res, lean):
+    """two-sided rule: simulated integer profiles vs the model's two-sided fill + the property's clauses"""
+    if "dtsf" not in it or "dtsf" not in res:
+        return
+    from harness import c17
+    d = it["dtsf"]
+    r = res["dtsf"]
+    inp = {"P1": d["P1"], "P2": d["P2"], "V1": d["V1"], "V2": d["V2"], "lambda_1": d["lam1"], "lambda_2": d["lam2"]}
+    if r.get("exc") or r.get("S1") is None:
+        R.violation("property_violation", "two-sided rule: total on consistent integer valuations", ENTRY + " (DoubleLambdaTSF)", inp, impl_output=r, oracle="raised")
+        return
+    n = len(d["P1"])
+    for side, P_, V_, S_, lam in (("d1", d["P1"], d["V1"], r["S1"], d["lam1"]), ("d2", d["P2"], d["V2"], r["S2"], d["lam2"])):
+        lams = c17.thresholds(n, lam)
+        for i in range(n):
+            order = sorted(range(n), key=lambda j: P_[i][j])
+            tv = [Fraction(V_[i][j]) for j in order]
+            sv = [Fraction(S_[i][j]) for j in order]
+            errs = []
+            if sv[0] != tv[0]:
+                errs.append("favourite value not kept")
+            if any(sv[q] > tv[q] for q in range(n)):
+                errs.append("simulated value exceeds the true value")
+            # set structure: the first threshold the true value passes (float test as specified)
+            for q in range(1, n):
+                l_in = None
+                for l, lm in enumerate(lams):
+                    if tv[q] >= Fraction(float(tv[0]) / float(lm)):
+                        l_in = l
+                        break
+                if l_in is None and sv[q] != 0:
+                    errs.append(f"position {q} lies outside all sets but got a value")
+                if l_in is not None and sv[q] == 0 and tv[q] != 0:
+                    errs.append(f"position {q} belongs to set {l_in + 1} but got no value")
+            if errs:
+                R.violation("property_violation", "two-sided rule: favourite kept, simulated <= true, set structure w.r.t. n^(l/(lambda+1))",
+                            ENTRY + " (DoubleLambdaTSF)", dict(inp, agent=i, side=side), impl_output=[str(x) for x in sv], oracle=errs[:3])
+                return
+            if c17.near_threshold(P_, V_, lam):
+                R.ambiguous += 1
+                continue
+            a = lean.get((side, i), "err")
+            t = a.split()
+            if t[0] != "ok" or [Fraction(x) for x in t[1:1 + n]] != sv:
+                R.corr_break("two-sided rule: simulated row = model simulate2", ENTRY + " (DoubleLambdaTSF)", dict(inp, agent=i, side=side), [str(x) for x in sv], a)
+                return
+    R.count("two_sided")
 
 
 def gen_items(R, count):
@@ -157,7 +221,13 @@ def gen_items(R, count):
         P = V.rand_profile(R.rng, n, m)
         vals = E.gen_near_threshold(R.rng, P, m, k) if kind == "near_threshold" else E.gen_vals(R.rng, P, m, kind)
         rules = ["karv"] + (["tsf", "m2q"] if square else [])
-        items.append({"P": P, "vals": vals, "k": k, "rules": rules, "kind": kind})
+        it = {"P": P, "vals": vals, "k": k, "rules": rules, "kind": kind}
+        if square and m <= 8 and R.rng.random() < 0.5:
+            from harness import smlib as S_
+            P2 = V.rand_profile(R.rng, m, m)
+            it["dtsf"] = {"P1": P, "P2": P2, "V1": S_.vals_agreeing(R.rng, P, 0, R.rng.choice([3, 9, 60])), "V2": S_.vals_agreeing(R.rng, P2, 0, R.rng.choice([3, 9, 60])),
+                          "lam1": R.rng.randint(1, m), "lam2": R.rng.randint(1, m), "zero": True}
+        items.append(it)
     return items
 
 
